@@ -102,6 +102,19 @@ def check(ctx):
     sums = [r for r in returns(ln) if "sum((Len(obj) for obj in self.frame.dependencies()))" in unparse(r.value)]
     ok = len(sums) == 1 and any("isinstance(self.frame, Concat)" in unparse(e) and pol for e, pol in cfg_of(ln).facts(sums[0])) and any("self.frame.operand('axis') == 0" in unparse(e) and pol for e, pol in cfg_of(ln).facts(sums[0]))
     ctx.ob("ALG.len-of-concat", ln, "Len(Concat(...)) -> sum of the parts' lengths only when axis == 0", ok, "" if ok else "the rewrite also fires for axis=1: len() of a column-wise concat becomes k*n")
+    # ---------------- idxmin/idxmax combine step carries the SAME extreme forward as the label it picks
+    dfc = ctx.model.module("dask/dataframe/core.py")
+    ir = dfc.func("idxmaxmin_row")
+    sel = find("minmax = M_v", ir)
+    ok = len(sel) == 1 and eqv(sel[0][1]["M_v"], "'max' if fn == 'idxmax' else 'min'") and bool(find("idx = [getattr(value, fn)(skipna=skipna)]", ir)) and bool(find("value = [getattr(value, minmax)(skipna=skipna)]", ir))
+    ctx.ob("TAB.idxmaxmin.pairing", ir, "idxmaxmin_row: fn == 'idxmax' pairs with 'max', anything else ('idxmin') with 'min'; label by fn, value by that extreme", ok, "" if ok else "an intermediate combine level carries the opposite extreme: idxmin/idxmax are wrong when npartitions > split_every")
+    # ---------------- corr: the squared deviation of column j only counts rows where the paired column is present
+    cc = dfc.func("_cov_corr_chunk")
+    mk = find("mask = df.isnull().values", cc)
+    ap = find("mu_discrepancy[mask] = np.nan", cc)
+    ns = find("m[idx] = np.nansum(mu_discrepancy, axis=0)", cc)
+    ok = len(mk) == 1 and len(ap) == 1 and len(ns) == 1 and dominates(cc, mk[0][0], ap[0][0]) and dominates(cc, ap[0][0], ns[0][0])
+    ctx.ob("PAIR.corr.pairwise-mask", cc, "_cov_corr_chunk(corr=True): mu_discrepancy[df.isnull()] = nan before the nansum (pairwise-complete observations)", ok, "" if ok else "deviations of rows whose partner is NaN are summed too: off-diagonal correlations are wrong whenever NaNs are not aligned across the two columns")
 
 
 VARIANTS = [
